@@ -15,7 +15,7 @@ from . import ser_common as sc
 LEVEL = "proof"
 MANIFEST_ENTRY = {
     "category": "proof",
-    "text": "Lean 4 theorems over a step-level model of save()'s filesystem protocol (staging next to the target, install, discard on failure): for every store, number of writes, pre-state and fault position the target is afterwards unchanged, absent or the complete new object (never partial), a non-raising call leaves the complete object, write-once raises before any effect, no other path changes. Tied to the code on every run by injecting an exception at EVERY primitive write/zip-assembly/install call of the real save() (exhaustive in the fault position for each generated graph, both stores, both modes, four pre-states), feeding the recorded primitive trace to the model and comparing outcomes; the property clauses are evaluated on the real filesystem (hashes of siblings, load() of the target).",
+    "text": "Lean 4 theorems over a step-level model of save()'s filesystem protocol (staging next to the target, install, discard on failure): for every store, number of writes, pre-state and fault position the target is afterwards unchanged, absent or the complete new object (never partial), a non-raising call leaves the complete object, write-once raises before any effect, no other path changes. Tied to the code on every run by injecting an exception at EVERY primitive write/zip-assembly/install call of the real save() (exhaustive in the fault position for each generated graph, both stores, both modes, six pre-states: absent, foreign file, foreign directory, zero-byte file, empty directory, earlier checkpoint), feeding the recorded primitive trace to the model and comparing outcomes; the property clauses are evaluated on the real filesystem (hashes of siblings, load() of the target).",
     "note": "Trusted: Lean kernel + standard axioms; os/shutil/zipfile/zarr filesystem semantics (existence, remove, replace, directory listing); faults are exceptions raised at the entry of a primitive (no process kill / power loss / concurrent writers / TOCTOU between exists and open).",
     "technique": "Lean 4 proof (induction over step lists, all fault positions) + exhaustive fault-injection correspondence",
 }
@@ -223,6 +223,10 @@ def setup_sandbox(base, store, pre, old_obj):
     elif pre == "dir":
         os.makedirs(os.path.join(target, "junk"))
         open(os.path.join(target, "junk", "f"), "w").write("x")
+    elif pre == "emptyfile":      # the smallest pre-existing targets: a zero-byte file, an empty directory
+        open(target, "w").close()
+    elif pre == "emptydir":
+        os.makedirs(target)
     elif pre == "earlier":
         with contextlib.redirect_stdout(io.StringIO()):
             old_obj.save(target, store=store)
@@ -268,7 +272,8 @@ def run_config(ctx, drv, recipe, old_recipe, store, mode, pre, idx, call="exact"
     spec_new, spec_old = sc.observe(obj), (sc.observe(old_obj) if pre == "earlier" else None)
     zip_store = store == "zip"
     case0 = {"recipe": recipe, "old_recipe": old_recipe, "store": store, "mode": mode, "pre": pre, "call": call}
-    pre_content = {"absent": None, "file": ["foreign", 1], "dir": ["foreign", 2], "earlier": ["complete", 3]}[pre]
+    pre_content = {"absent": None, "file": ["foreign", 1], "dir": ["foreign", 2], "earlier": ["complete", 3],
+                   "emptyfile": ["foreign", 4], "emptydir": ["foreign", 5]}[pre]
     NEW = 7
 
     def one(fault):
@@ -447,8 +452,8 @@ def run(ctx):
             recipe = g.root(rng.weighted([(1, 3), (2, 3)]))
             old_recipe = ["obj", "SB", [["old", ["scalar", sc.S(rng.randint(0, 99))]], ["arr", sc.gen_ndarray(rng)]]]
             for store in ("zip", "dir"):
-                for mode, pre in (("o", "absent"), ("o", "earlier"), ("o", rng.choice(["file", "dir"])), ("w", "absent"),
-                                  ("w", rng.choice(["file", "dir", "earlier"]))):
+                for mode, pre in (("o", "absent"), ("o", "earlier"), ("o", rng.choice(["file", "dir", "emptyfile", "emptydir"])), ("w", "absent"),
+                                  ("w", rng.choice(["file", "dir", "earlier", "emptyfile", "emptydir"]))):
                     call = rng.weighted([("exact", 3), ("auto", 1), ("noext", 2 if store == "zip" else 0)])
                     run_config(ctx, drv, recipe, old_recipe, store, mode, pre, idx, call)
                     idx += 1
